@@ -20,6 +20,7 @@
 (*   X a   reset a                             -> Unset                    *)
 (*   W a   write an output attribute (no status) / P a  peek (no effect)   *)
 (*   B t   the call is broken at this point in every state (pseudo attr t) *)
+(*   A a b t  assert a == b: fails (pseudo attr t) if exactly one is Unset *)
 (*   I a s if a is Unset run sub-script s / J a s  if a is not Unset run s *)
 (*   C a deps key s   cached: if a is Unset run s and fill a (Def if all   *)
 (*         deps are Def else Stale) for argument `key`; otherwise REUSE it *)
@@ -61,6 +62,7 @@ StX(ro, a) == <<"X", <<ro, a>>>>
 StW(ro, a) == <<"W", <<ro, a>>>>
 StP(ro, a) == <<"P", <<ro, a>>>>
 StB(t)     == <<"B", <<"", t>>>>
+StA(ro, a, ro2, b, t) == <<"A", <<ro, a>>, <<ro2, b>>, <<"", t>>>>
 StI(ro, a, sub) == <<"I", <<ro, a>>, sub>>
 StJ(ro, a, sub) == <<"J", <<ro, a>>, sub>>
 StC(ro, a, deps, key, sub) == <<"C", <<ro, a>>, deps, key, sub>>
@@ -72,7 +74,7 @@ StPs(ro, names) == [i \in 1..Len(names) |-> StP(ro, names[i])]
 (* ro = role of the panel: "" (the object itself), "p1"/"p2" (panels of an *)
 (* assembly or bay), "base"/"flange" (panels of a stiffener).  sized: the  *)
 (* caller passes size=..., so get_size() is not called.                    *)
-PRebuild(ro) == <<StL(ro, "model"), StL(ro, "laminaprops"), StL(ro, "plyts")>>          \* :216-242
+PRebuild(ro) == <<StP(ro, "r"), StL(ro, "model"), StL(ro, "laminaprops"), StL(ro, "plyts")>>   \* :216-242 (r, alphadeg select the model)
 PGetSize(ro) == <<StR(ro, "model"), StD(ro, "size")>>                                   \* :259-261
 PSize(ro, sized) == IF sized THEN <<>> ELSE PGetSize(ro)
 PGeom(ro) == <<StD(ro, "alpharad"), StL(ro, "r")>>                                      \* :376-378 (r: None -> 0.)
@@ -162,11 +164,12 @@ AssemblyMethods == {"calc_k0", "calc_k0_c", "calc_kG0", "calc_kG0_c", "calc_kM",
 (* ---- StiffPanelBay (stiffpanelbay.py) + stiffeners (stiffener/*.py) --- *)
 BaseReset == StXs("base", <<"model", "alpharad", "r", "lam", "F", "size">>)
 S1W == StWs("s", <<"hf", "Asf", "flam", "Asb", "dbf", "Iyy", "Jxx", "As", "E1", "S1", "F1">>)
+RAssert == <<StA("p1", "r", "p2", "r", "r_mismatch")>>      \* assert self.panel1.r == self.panel2.r
 SReb(k) ==   \* stiffener._rebuild
-    CASE k = "BayB1"  -> S1W                                                          \* bladestiff1d.py:62-113
-      [] k = "BayB1b" -> S1W \o BaseReset \o <<StW("s", "base")>>                       \* :78-100 a NEW base Panel every time
-      [] k = "BayB2"  -> <<StD("flange", "lam"), StW("s", "dpb"), StD("base", "lam")>>      \* bladestiff2d.py:80-96
-      [] k = "BayT2"  -> <<StD("flange", "lam"), StW("s", "dpb"), StD("base", "lam")>>      \* tstiff2d.py:89-118
+    CASE k = "BayB1"  -> RAssert \o S1W                                                          \* bladestiff1d.py:62-113
+      [] k = "BayB1b" -> RAssert \o S1W \o BaseReset \o <<StW("s", "base")>>                       \* :78-100 a NEW base Panel every time
+      [] k = "BayB2"  -> RAssert \o <<StD("flange", "lam"), StW("s", "dpb"), StD("base", "lam")>>      \* bladestiff2d.py:80-96
+      [] k = "BayT2"  -> RAssert \o <<StD("flange", "lam"), StW("s", "dpb"), StD("base", "lam")>>      \* tstiff2d.py:89-118
       [] OTHER -> <<>>
 BReb(k) == PRebuild("p1") \o <<StL("", "model")>> \o PRebuild("p2") \o <<StP("", "model")>> \o SReb(k)   \* :157-178
 StiffSizes(k) == CASE k = "BayB2" -> PGetSize("flange")
@@ -294,15 +297,15 @@ RECURSIVE Under(_, _)
 Under(steps, ops) ==      \* attributes under steps whose operation is in ops (sub-scripts included)
     IF steps = <<>> THEN {}
     ELSE LET s == Head(steps)
-             here == IF s[1] \in ops THEN {s[2]} ELSE {}
+             here == IF s[1] \in ops THEN (IF s[1] = "A" THEN {s[2], s[3]} ELSE {s[2]}) ELSE {}
              sub == IF s[1] \in {"I", "J"} THEN Under(s[3], ops)
                     ELSE IF s[1] = "C" THEN Under(s[5], ops) ELSE {}
          IN here \cup sub \cup Under(Tail(steps), ops)
-StatusOps == {"R", "D", "L", "S", "X", "I", "J", "C"}
+StatusOps == {"R", "D", "L", "S", "X", "I", "J", "C", "A"}
 Reads(k, m)   == Under(Script(k, m), {"R"})
 Derives(k, m) == Under(Script(k, m), {"D", "L", "S", "X", "C"})
 Writes(k, m)  == Under(Script(k, m), {"W"})
-MayRead(k, m)  == Under(Script(k, m), {"R", "L", "S", "P", "I", "J", "C"}) \cup Derives(k, m) \cup Writes(k, m)
+MayRead(k, m)  == Under(Script(k, m), {"R", "L", "S", "P", "I", "J", "C", "A"}) \cup Derives(k, m) \cup Writes(k, m)
 MayWrite(k, m) == Derives(k, m) \cup Writes(k, m)
 Attrs(k) == UNION {Under(Script(k, m), StatusOps) : m \in Methods(k)}
 Universe(k) == UNION {MayRead(k, m) \cup MayWrite(k, m) : m \in Methods(k)}
@@ -345,6 +348,8 @@ Run(steps, st) ==
               [] op = "X" -> Run(rest, [st EXCEPT !.d[a] = "Unset"])
               [] op \in {"W", "P"} -> Run(rest, st)
               [] op = "B" -> [st EXCEPT !.out = "fails", !.attr = a]
+              [] op = "A" -> IF (st.d[a] = "Unset") # (st.d[s[3]] = "Unset")
+                             THEN [st EXCEPT !.out = "fails", !.attr = s[4]] ELSE Run(rest, st)
               [] op = "I" -> IF st.d[a] = "Unset" THEN Run(s[3] \o rest, st) ELSE Run(rest, st)
               [] op = "J" -> IF st.d[a] # "Unset" THEN Run(s[3] \o rest, st) ELSE Run(rest, st)
               [] op = "C" ->
@@ -381,17 +386,17 @@ FailTable == {
   KFail("KF_C20_Panel_uvw_model", "Assembly", "plot", "model", "KeyError", KeyNone),
   KFail("KF_C20_Panel_strain_model", "Panel", "strain", "model", "KeyError", KeyNone),
   KFail("KF_C20_Panel_strain_model", "Panel", "strain", "r", "TypeError", RealNone),
-  KFail("KF_C20_Panel_strain_model", "Panel", "strain", "alpharad", "AttributeError", "'Panel' object has no attribute 'alphar"),
+  KFail("KF_C20_Panel_strain_model", "Panel", "strain", "alpharad", "AttributeError", "'Panel' object has no attribute 'alphara"),
   KFail("KF_C20_Panel_strain_model", "Panel", "stress", "model", "KeyError", KeyNone),
   KFail("KF_C20_Panel_strain_model", "Panel", "stress", "r", "TypeError", RealNone),
-  KFail("KF_C20_Panel_strain_model", "Panel", "stress", "alpharad", "AttributeError", "'Panel' object has no attribute 'alphar"),
+  KFail("KF_C20_Panel_strain_model", "Panel", "stress", "alpharad", "AttributeError", "'Panel' object has no attribute 'alphara"),
   KFail("KF_C20_Panel_strain_model", "Panel", "stress", "F", "ValueError", "Laminate ABD matrix not defined for pane"),
   KFail("KF_C20_Panel_strain_model", "Assembly", "strain", "model", "KeyError", KeyNone),
   KFail("KF_C20_Panel_strain_model", "Assembly", "strain", "r", "TypeError", RealNone),
-  KFail("KF_C20_Panel_strain_model", "Assembly", "strain", "alpharad", "AttributeError", "'Panel' object has no attribute 'alphar"),
+  KFail("KF_C20_Panel_strain_model", "Assembly", "strain", "alpharad", "AttributeError", "'Panel' object has no attribute 'alphara"),
   KFail("KF_C20_Panel_strain_model", "Assembly", "stress", "model", "KeyError", KeyNone),
   KFail("KF_C20_Panel_strain_model", "Assembly", "stress", "r", "TypeError", RealNone),
-  KFail("KF_C20_Panel_strain_model", "Assembly", "stress", "alpharad", "AttributeError", "'Panel' object has no attribute 'alphar"),
+  KFail("KF_C20_Panel_strain_model", "Assembly", "stress", "alpharad", "AttributeError", "'Panel' object has no attribute 'alphara"),
   KFail("KF_C20_Panel_strain_model", "Assembly", "stress", "F", "ValueError", "Laminate ABD matrix not defined for pane"),
   KFail("KF_C20_Panel_calc_kG0_lam", "Panel", "calc_kG0_c", "lam", "RuntimeError", "lam object is None!"),
   KFail("KF_C20_Panel_calc_kG0_lam", "Assembly", "calc_kG0_c", "lam", "RuntimeError", "lam object is None!"),
@@ -400,6 +405,7 @@ FailTable == {
   KFail("KF_C20_Panel_calc_fint_model", "Assembly", "calc_fint", "model", "ValueError", "None is not a valid model option"),
   KFail("KF_C20_Panel_calc_fint_model", "Assembly", "calc_fint", "F", "ValueError", "Invalid shape for Finput!"),
   KFail("KF_C20_Assembly_calc_fint_sum", "Assembly", "calc_fint", "sum", "TypeError", "unsupported operand type(s) for +=: 'int"),
+  KFail("KF_C20_Bay_calc_kA_r", "Bay", "*", "r_mismatch", "AssertionError", ""),
   KFail("KF_C20_Bay_calc_kA_size", "Bay", "calc_kA", "size", "AttributeError", "'StiffPanelBay' object has no attribute "),
   KFail("KF_C20_Bay_calc_kA_beta", "Bay", "calc_kA", "beta", "ValueError", "Mach number cannot be a NoneValue"),
   KFail("KF_C20_Bay_calc_cA_signature", "Bay", "calc_cA", "signature", "TypeError", "unsupported operand type(s) for *: 'floa"),
@@ -418,7 +424,7 @@ WrongTable == {
   [dev |-> "KF_C20_ConeCyl_uvw_alpharad", cls |-> "ConeCyl", stale |-> {"alpharad"}, reuse |-> {}] }
 AllDeviations == {f.dev : f \in FailTable} \cup {w.dev : w \in WrongTable}
 
-FailEntries(k, m, a, devs) == {f \in FailTable : f.dev \in devs /\ f.cls = Class(k) /\ f.m = m /\ f.a = a[2]}
+FailEntries(k, m, a, devs) == {f \in FailTable : f.dev \in devs /\ f.cls = Class(k) /\ f.m \in {m, "*"} /\ f.a = a[2]}
 StaleDevs(k, a, devs) == {w.dev : w \in {x \in WrongTable : x.dev \in devs /\ x.cls = Class(k) /\ a[2] \in x.stale}}
 ReuseDevs(k, a, devs) == {w.dev : w \in {x \in WrongTable : x.dev \in devs /\ x.cls = Class(k) /\ a[2] \in x.reuse}}
 (* deviations that together explain outcome st of method m on kind k; {} if it is not explained *)
@@ -470,5 +476,5 @@ Idempotent ==
         IN s2.d = s1.d /\ s2.k = s1.k /\ s2.out = s1.out /\ s2.attr = s1.attr
 (* every failure signature of the tables is consistent with the scripts: the attribute is read *)
 TablesConsistent ==
-    \A f \in FailTable : \E k \in AllKinds : Class(k) = f.cls /\ f.m \in Methods(k)
+    \A f \in FailTable : \E k \in AllKinds : Class(k) = f.cls /\ (f.m = "*" \/ f.m \in Methods(k))
 =============================================================================
